@@ -26,6 +26,28 @@ KINDS = {
  "C19":"the complex-adjoint variant (power_iteration_nonhermitian) or the convergence / stagnation logic for negative dominant eigenvalues",
  "C20":"weaken (not delete) a guard so that it still rejects the obvious out-of-domain inputs but lets a particular class through (a tolerance, a partial comparison, an 'or' turned into 'and', a check made only for some dtype/shape), for an entry point other than tridiagonalize",
 }
+KINDS3 = {
+ "C01":"the Frobenius norm / conjugate-transpose part of the property (not the product itself), or the scalar-times-matrix helpers of the sparse class",
+ "C02":"the complex adjoint (2n x 2n) or the component-blocked embedding, for a special value pattern or shape",
+ "C03":"the third-order solver, or the damped solver for gamma < 1, in a way that needs many iterations or a special spectrum (repeated / clustered / widely spread singular values) to show",
+ "C04":"the truthfulness of the info record (residual, residual_true, iterations, residual_history, converged) for a particular configuration (sparse A, left_lu, a cap smaller than n, a loose tolerance)",
+ "C05":"the full (untruncated) form for a special shape (1 x n, n x 1, square) or value pattern, without relying on rank deficiency or repeated singular values",
+ "C06":"an effect that needs special VALUES rather than special shapes (exact zeros in particular positions, integer data, tiny or huge magnitudes, a particular sign pattern) on full-rank input",
+ "C07":"the loud-failure clause (singular input) or the structure of the returned factors (exact ones / zeros, multipliers bounded by 1) rather than the reconstruction",
+ "C08":"the tridiagonalisation (P, B) rather than the eigendecomposition: structure of B, unitarity of P, or the recursion for a particular size",
+ "C09":"the cleaning / structure of H (entries below the sub-diagonal), or is_hessenberg, for inputs of special scale or structure",
+ "C10":"the convergence flag / diagnostics record, or the behaviour for Hermitian input, for one particular variant",
+ "C11":"rank() itself: its threshold, its behaviour under conjugate transpose or scaling, or for special shapes (1 x n, n x 1)",
+ "C12":"rand_qsvd (not the pass-efficient routine): power iterations, the wide-sketch fallback branches, or the final lifting step",
+ "C13":"the row variant (wide matrices) of the sketch-and-project solver, or the 'spd' column solver and its fallback",
+ "C14":"reproducibility: a routine that draws random numbers stops being a pure function of the global seed (e.g. mixes in another generator, time, object identity or hash order) only under particular parameters",
+ "C15":"the inequalities / homogeneity part: make one norm wrong only for a special class (rank-one, negative scalar multiple, rectangular with m < n, a single row or column)",
+ "C16":"the Givens QR of the Hessenberg matrix (accumulated W, last-column rotation) for a particular k or pattern",
+ "C17":"linearity / channel independence / mass preservation of the blur or the restoration, under a particular condition",
+ "C18":"the tensor unfold/fold part for singleton dimensions or a particular mode, or the SNR of the noise injection for particular image shapes",
+ "C19":"the returned eigenvalue estimate or the 'return_eigenvalue' / 'return_vector' / 'eigenvalue_format' call forms",
+ "C20":"the 'does so before modifying anything' clause or the converse clause (an in-domain boundary argument - 1x1, 1xn, nx1, rank 0 - gets rejected) for some entry point",
+}
 T = '''You are helping to evaluate a verification tool for the open-source Python library QuatIca (quaternion numerical linear algebra). Your job: act as a "mutation author". You are given ONE semantic property that the library is supposed to satisfy, and your own scratch git worktree of the repository. Produce a realistic, subtle code change to the library that BREAKS this property while the library still imports fine and the repository's existing test suite still passes.
 
 ## The property
@@ -58,8 +80,10 @@ os.makedirs(os.path.join(out, "prompts"), exist_ok=True)
 for l in open("/verif/properties.jsonl"):
     p = json.loads(l); pid = p["id"]; wt = os.path.join(out, pid)
     kind = ""
-    if rnd >= 2:
+    if rnd == 2:
         kind = f"For this task, aim your change at: {KINDS[pid]}.\n"
+    if rnd >= 3:
+        kind = f"For this task, aim your change at: {KINDS3[pid]}.\n"
     txt = T.format(title=p["title"], statement=p["statement"], quant=p["quantifier"]["text"], files=", ".join(p["anchors"]["files"]), wt=wt, pid=pid, kind=kind)
     open(os.path.join(out, "prompts", pid + ".txt"), "w").write(txt)
 print("prompts in", os.path.join(out, "prompts"))
